@@ -42,6 +42,7 @@ type PauseController struct {
 
 	lock         sync.RWMutex
 	pauseChannel chan bool
+	changes      uint64
 }
 
 func NewPauseController() *PauseController {
@@ -95,6 +96,16 @@ func (p *PauseController) GetStopMessage() string {
 	return p.StopMessage
 }
 
+// changeCount tells how often the controller has been paused, stopped or
+// resumed so far. A caller that reads the same count twice knows that the state
+// did not change in between.
+func (p *PauseController) changeCount() uint64 {
+	p.lock.RLock()
+	defer p.lock.RUnlock()
+
+	return p.changes
+}
+
 func (p *PauseController) Stop(message string) error {
 	p.setState(PauseStateStopped, message)
 	return nil
@@ -111,6 +122,7 @@ func (p *PauseController) Pause(failAfter time.Duration) error {
 	p.State = PauseStatePaused
 	p.StopMessage = ""
 	p.FailAfter = failAfter
+	p.changes++
 	return nil
 }
 
@@ -165,4 +177,5 @@ func (p *PauseController) setState(newState PauseState, message string) {
 
 	p.StopMessage = message
 	p.State = newState
+	p.changes++
 }
